@@ -1264,6 +1264,8 @@ def model_correspondence(ctx, J, bases):
     from . import c08_flights as FL
     FL.hrr_stream(ctx, J, ctx.pick(500, 6000))
     FL.resume_stream(ctx, J, bases)
+    FL.early_data_stream(ctx, J, ctx.thorough())
+    FL.resumption_history_stream(ctx, J, ctx.thorough())
     FL.flight_stream(ctx, J, bases, ctx.pick(25, 400))
 
 
@@ -1309,6 +1311,16 @@ def run_input(ctx, J, inp):
         muts = {int(k): v for k, v in inp["muts"].items()}
         L, applied, peak = run_handshake_case(scn, inp["side"], muts, None, ctxm)
         return judge(J, L, "server" if inp["side"] == "client" else "client", "flight " + inp.get("cls", ""), inp)
+    if stage == "early-data":
+        from . import c08_flights as FL
+        sz = inp["sizes"]
+        sizes = [sz["size"]] * sz["count"] if isinstance(sz, dict) else sz
+        FL.early_data_stream(ctx, J, False, only=(inp["max_early"], inp["known_psk"], sizes))
+        return {"violations": [v["key"] for v in ctx.violations]}
+    if stage == "resumption-history":
+        from . import c08_flights as FL
+        FL.resumption_history_stream(ctx, J, False, only=(inp["scn"], inp["history"]))
+        return {"violations": [v["key"] for v in ctx.violations]}
     if stage == "hrr":
         from . import c08_flights as FL
         f1 = inp["f1"]
@@ -1346,7 +1358,7 @@ def replay(ctx, rep):
     tracemalloc.start(1)
     try:
         out = run_input(ctx, J, inp)
-        if out is None and stage not in ("handshake", "raw", "post", "ch-features", "flight", "hrr"):
+        if out is None and stage not in ("handshake", "raw", "post", "ch-features", "flight", "hrr", "early-data", "resumption-history"):
             print("replay of stage %r: re-running the whole check" % stage)
             Mem.mode = "rss"
             run(ctx)
